@@ -64,9 +64,9 @@ Definition api_taproot (ask : string -> list val -> val) : list api_entry :=
   let sha := o_sha256 ask in
   let sqrt_even := fun x => match ask "ec_lift_x" [VN 0; VN x; VN 0] with VL [VN _; VN y] => Some y | _ => None end in
   let ec_add := fun p q => pt_of_val (ask "ec_add" [VN 0; val_of_pt p; val_of_pt q]) in
-  let order := o_N ask "ec_order" [VN 0] in
-  (* coincurve: scalar 0 or >= n is refused with ValueError *)
-  let mul_base := fun k => if orb (N.eqb k 0) (N.leb order k) then Err ValueError
+  (* coincurve: scalar 0 or >= n is refused with ValueError.  (The order is asked for inside the
+     closure: extracted OCaml is strict, a let-bound oracle call would run on every dispatch.) *)
+  let mul_base := fun k => if orb (N.eqb k 0) (N.leb (o_N ask "ec_order" [VN 0]) k) then Err ValueError
                            else Ok (pt_of_val (ask "ec_mul" [VN 0; VN k; ask "ec_base" [VN 0]])) in
   [ ("taproot_tweak", fun a => match a with [VB pub] =>
        rb (Taproot.tweak sha sqrt_even ec_add mul_base secp_coord_len pub) | _ => bad_call end) ].
